@@ -9,7 +9,7 @@ from __future__ import annotations
 import ast
 import os
 
-from ..extract import lean_str_list, write_if_changed
+from ..extract import lean_str, lean_str_list, write_if_changed
 from ..lib.common import REPO
 
 
@@ -70,7 +70,91 @@ def generate(problems):
                 nodes.append(n)
         nodes.sort(key=lambda n: (n.lineno, n.col_offset))
         steps = [ast.unparse(n) for n in nodes]
+    # --- statements the walk / discard / resolve-by-name / dataclass models transcribe ------------------------------
+    def norm(n):
+        return ast.unparse(n).replace('"', "'")
+
+    walk = None
+    for n in ast.walk(tree):
+        if isinstance(n, ast.ClassDef) and n.name == "ActionTypeHint":
+            for m in n.body:
+                if isinstance(m, ast.FunctionDef) and m.name == "discard_init_args_on_class_path_change":
+                    walk = m
+    prune, sep, wguard = [], "", []
+    if walk is None:
+        problems.append("ClassPathTables: ActionTypeHint.discard_init_args_on_class_path_change not found")
+    else:
+        for n in ast.walk(walk):
+            if isinstance(n, ast.Assign) and len(n.targets) == 1 and isinstance(n.targets[0], ast.Name) and n.targets[0].id == "keys" \
+                    and any(isinstance(x, ast.ListComp) for x in ast.walk(n.value)):
+                prune.append(norm(n))
+                for c in ast.walk(n.value):
+                    if isinstance(c, ast.Call) and isinstance(c.func, ast.Attribute) and c.func.attr == "startswith" and c.args:
+                        a = c.args[0]
+                        if isinstance(a, ast.BinOp) and isinstance(a.op, ast.Add) and isinstance(a.left, ast.Name) and isinstance(a.right, ast.Constant) \
+                                and isinstance(a.right.value, str):
+                            sep = a.right.value
+                        elif isinstance(a, ast.Name):
+                            sep = ""
+                        else:
+                            problems.append("ClassPathTables: unexpected prefix test in the discard walk: " + norm(a))
+        ifs = [n for n in ast.walk(walk) if isinstance(n, ast.If)]
+        ifs.sort(key=lambda n: (n.lineno, n.col_offset))
+        wguard = [norm(n.test) for n in ifs if "isinstance(prev_cfg" not in norm(n.test) and "not isinstance(parser_or_action" not in norm(n.test)]
+        if len(prune) != 1:
+            problems.append("ClassPathTables: expected one pruning assignment to `keys` in the discard walk, found %d" % len(prune))
+    mod_discard = None
+    for n in tree.body:
+        if isinstance(n, ast.FunctionDef) and n.name == "discard_init_args_on_class_path_change":
+            mod_discard = n
+    mguard, mdrops = [], []
+    if mod_discard is None:
+        problems.append("ClassPathTables: module-level discard_init_args_on_class_path_change not found")
+    else:
+        top_ifs = [n for n in mod_discard.body if isinstance(n, ast.If)]
+        mguard = [norm(n.test) for n in top_ifs]
+        for n in ast.walk(mod_discard):
+            if isinstance(n, ast.If) and norm(n.test) == "not action":
+                mdrops.append(norm(n))
+    dc_test = []
+    at = _func(tree, "adapt_typehints")
+    if at is None:
+        problems.append("ClassPathTables: adapt_typehints not found")
+    else:
+        for n in ast.walk(at):
+            if isinstance(n, ast.If) and "is_dataclass_like(typehint)" in norm(n.test):
+                for m in ast.walk(n):
+                    if isinstance(m, ast.If) and "is_subclass_spec(val)" in norm(m.test) and any(
+                            isinstance(x, ast.Assign) and norm(x) == "val = val.get('init_args')" for x in m.body):
+                        dc_test.append(norm(m.test))
+        dc_test = sorted(set(dc_test))
+        if len(dc_test) != 1:
+            problems.append("ClassPathTables: expected one `val = val.get('init_args')` guard in the Dataclass-like branch, found %d" % len(dc_test))
+    rbn = _func(tree, "resolve_class_path_by_name")
+    rbn_tests = []
+    if rbn is None:
+        problems.append("ClassPathTables: resolve_class_path_by_name not found")
+    else:
+        ifs = [n for n in ast.walk(rbn) if isinstance(n, ast.If)]
+        ifs.sort(key=lambda n: (n.lineno, n.col_offset))
+        rbn_tests = [norm(n.test) for n in ifs]
+    act = _func(tree, "adapt_class_type")
+    act_dk = []
+    if act is None:
+        problems.append("ClassPathTables: adapt_class_type not found")
+    else:
+        ifs = [n for n in ast.walk(act) if isinstance(n, ast.If)]
+        ifs.sort(key=lambda n: (n.lineno, n.col_offset))
+        act_dk = [norm(n) for n in ifs if norm(n.test) == "_find_action(parser, key)" or "prev_val.get('dict_kwargs')" in norm(n.test)]
     body = "namespace Jap.Gen\n"
+    body += "def discardPruneSep : String := %s\n" % lean_str(sep)
+    body += "def discardWalkPrune : List String := %s\n" % lean_str_list(prune)
+    body += "def discardWalkGuard : List String := %s\n" % lean_str_list(wguard)
+    body += "def discardModuleGuard : List String := %s\n" % lean_str_list(mguard)
+    body += "def discardModuleDrops : List String := %s\n" % lean_str_list(mdrops)
+    body += "def dataclassSpecTest : List String := %s\n" % lean_str_list(dc_test)
+    body += "def resolveByNameTests : List String := %s\n" % lean_str_list(rbn_tests)
+    body += "def adaptClassTypeDictKwargs : List String := %s\n" % lean_str_list(act_dk)
     body += "def getInstantiatorsSteps : List String := %s\n" % lean_str_list(steps)
     body += "def scalarCoercions : List (String × String × String) := [%s]\n" % ", ".join('("%s", "%s", "%s")' % r for r in rows)
     body += "def subclassSpecKeys : List String := %s\n" % lean_str_list(keys)
